@@ -13,7 +13,7 @@ RULE = ("lists of 0..4 strings of length 0..5 (all-empty rows, single row, empty
         "over every single operation with every index in [-len-1, len] on a fixed set of values; strops split/join. Non-trivial = >= 2 ops, "
         "unequal row lengths, or an empty row/selection")
 EXHAUSTIVE = {"quick": False, "thorough": False}
-MODEL_OPS = {"program", "eqchar", "strequal", "split", "join"}
+MODEL_OPS = {"program", "eqchar", "observe_m", "strequal", "split", "join"}
 ASSUMPTIONS = ["npstructures RaggedArray indexing/assignment and NumPy indexing are specified (Base/PySlice + Model/C07.apply), not verified; "
                "every use is exercised against the Python list-of-strings oracle",
                "decode tables of the alphabet encodings are injective (C06.gen_tables_ok)"]
@@ -739,11 +739,19 @@ def agree(c, got, exp):
     return core.canon(_strip(got)) == core.canon(exp)
 
 
+def _obs_from_lean(m):
+    """the Lean reply of `observe_m` in the harness's observation format"""
+    if isinstance(m, dict) and "obs_text" in m:
+        return {"obs": "".join(chr(x) for x in m["obs_text"])}
+    return m
+
+
 def _val_of_json(j):
     return ("flat", j["l"]) if j["t"] == "flat" else (("rag", j["r"]) if j["t"] == "rag" else ("scalar", j["c"]))
 
 
 def agree_model(c, got, m):
+    m = _obs_from_lean(m)
     if c["op"] in ("observe", "sa") and isinstance(m, dict) and "text" in m:
         try:
             m = {"obs": _expect_obs(c, _val_of_json(m["text"]))}
@@ -753,6 +761,7 @@ def agree_model(c, got, m):
 
 
 def agree_spec(c, sp, exp):
+    sp = _obs_from_lean(sp)
     if c["op"] in ("observe", "sa") and isinstance(sp, dict) and "text" in sp:
         try:
             sp = {"obs": _expect_obs(c, _val_of_json(sp["text"]))}
@@ -771,6 +780,8 @@ def model_request(c):
     if c["op"] in ("observe", "sa"):
         if isinstance(oracle(c), core.Skip):
             return None
+        if c["op"] == "observe" and c["obs"] in ("eqstr", "eqarr", "neqchar", "where", "len"):
+            return dict(c, op="observe_m", dec=_dec_table(c["enc"]))      # the observation itself is computed by the Lean model
         return dict(c, op="program", dec=_dec_table(c["enc"]))
     return c
 
